@@ -97,7 +97,7 @@ theorem forceLoop_agree (hf : FrcAgree c pv rootType root frc frc0) :
 theorem forceAll_agree (hr : KeysNodup root) (fuel : Nat) :
     FrcAgree c pv rootType root (forceAll c altM fuel) (forceAll c alt0 fuel) := by
   intro cl st st0 hcl h hv
-  exact forceLoop_agree (force_agree hr fuel) fuel (.deferred cl) st st0 (allCl_deferred.2 hcl) h hv
+  exact forceLoop_agree (force_agree hr fuel) (fuel + 2) (.deferred cl) st st0 (allCl_deferred.2 hcl) h hv
 
 theorem bfsEntries_agree (hf : FrcAgree c pv rootType root frc frc0) (p : Path) :
     ∀ (segs : List PathSeg) (rootV : PVal) (q : List Path) (st st0 : MSt), OK rootV → StRel st st0 →
